@@ -226,18 +226,22 @@ NET_RULE = ("cases = randomized scripted histories over network::split(): listen
 class C03(Prop):
     id = "C03"
     module = "MioModel.Props.C03"
-    bins = ["net"]
+    bins = ["net", "node"]
     run_bin = "net"
-    rule = NET_RULE + "non-trivial = history with a refused connect, a disconnection or a send before establishment (tags refused/disconnected/notavailable); distinct = by history"
+    rule = NET_RULE + ("plus, for the three listener modes of the node layer (for_each, for_each_async, enqueue), `node early` cases: "
+                       "peers connect / send / disconnect before and after the listener call and the callback's event sequence must "
+                       "equal the action sequence. non-trivial = history with a refused connect, a disconnection or a send before "
+                       "establishment (tags refused/disconnected/notavailable), or a node case with >= 3 cached events; distinct = by history")
     trusted_base = NET_TB
     assumptions = NET_ASSUME + ["connect_sync: the polling loop itself is three lines (network.rs:118-131); its two exits are the theorems about is_ready"]
 
     def nontrivial(self, case, tags):
-        return any(t in tags for t in ("refused", "disconnected", "notavailable"))
+        return any(t in tags for t in ("refused", "disconnected", "notavailable", "cached3"))
 
     def tie(self, stats, tier, seed):
         cmp = getattr(self, "compare", True)
         core.tie_run(stats, "net", ["gen", seed, 400 if tier == "thorough" else 48], self.nontrivial, cmp)
+        core.tie_run(stats, "node", ["gen-early", seed + 7, 8 if tier == "thorough" else 3], self.nontrivial, cmp)
 
     def search(self, tier, seed):
         st = core.Stats()
@@ -311,6 +315,92 @@ class C13(Prop):
 
     def reexecutable(self, case):
         return case.startswith("stream size")
+
+
+NODE_TB = [KERNEL, TIE, "model of node.rs written by hand (MioModel/Node.lean): every line of the two dispatch threads that touches the running flag, the callback mutex or the cache is one step",
+           "std::sync::Mutex: mutual exclusion and release/acquire ordering (which is what makes the Relaxed `running` flag sequentially consistent for a stop() issued while the callback lock is held) (assumed)",
+           "the driver plays each scenario on the model with one fair eager schedule; the theorems cover all schedules"]
+NODE_ASSUME = ["the unsafe impl Send for the callback wrapper is sound given the lock: that is the theorem's content; the Rust memory model is not modelled",
+               "bounded time = bounded own steps x SAMPLING_TIMEOUT; monitored with a 1.5-3 s bound", "tie samples schedules (real threads), weaker than the differential ties"]
+
+
+class C05(Prop):
+    id = "C05"
+    module = "MioModel.Props.C05"
+    bins = ["node"]
+    run_bin = "node"
+    rule = ("cases = stress runs in the three listener modes (for_each, for_each_async, enqueue): three raw FramedTcp peers "
+            "and a UDP peer sending continuously, three threads sending plain / priority / timed signals, callback duration "
+            "0 / 5 us spin / 1 ms sleep; the callback flips a shared inside-flag on entry and exit and counts overlaps. "
+            "non-trivial = both dispatch threads entered the callback at least 100 times in the run (tag both-threads); "
+            "distinct = by mode and callback duration")
+    trusted_base = NODE_TB
+    assumptions = NODE_ASSUME
+
+    def nontrivial(self, case, tags):
+        return "both-threads" in tags
+
+    def tie(self, stats, tier, seed):
+        cmp = getattr(self, "compare", True)
+        core.tie_run(stats, "node", ["gen-serial", 4 if tier == "thorough" else 1], self.nontrivial, cmp)
+
+    def search(self, tier, seed):
+        st = core.Stats()
+        core.tie_run(st, "node", ["gen-serial", 3], self.nontrivial, False)
+        return st
+
+
+class C09(Prop):
+    id = "C09"
+    module = "MioModel.Props.C09"
+    bins = ["node"]
+    run_bin = "node"
+    rule = ("cases = for each listener mode: stop() before the listener call with 0/1/3 cached start-up events; stop() inside "
+            "the callback of the i-th network event / i-th signal while peers and signals keep flowing; stop() inside a signal "
+            "callback that sleeps 60 ms so that the network thread queues up on the callback lock; stop() inside the callback "
+            "of the second of 5 replayed cached events; stop() from an unrelated thread; counted: invocations entered after the "
+            "in-callback / before-start stop(), whether the listener returned within 1.5 s, is_running(). non-trivial = the "
+            "callback was invoked at least once in the scenario (tag invoked) or stop came before the start; distinct = by scenario")
+    trusted_base = NODE_TB
+    assumptions = NODE_ASSUME
+
+    def nontrivial(self, case, tags):
+        return "invoked" in tags or "before" in tags
+
+    def tie(self, stats, tier, seed):
+        cmp = getattr(self, "compare", True)
+        core.tie_run(stats, "node", ["gen-stop", tier], self.nontrivial, cmp)
+
+    def search(self, tier, seed):
+        st = core.Stats()
+        core.tie_run(st, "node", ["gen-stop", "thorough"], self.nontrivial, False)
+        return st
+
+
+class C15(Prop):
+    id = "C15"
+    module = "MioModel.Props.C15"
+    bins = ["node"]
+    run_bin = "node"
+    rule = ("cases = for each listener mode: raw FramedTcp peers connect, send numbered messages and disconnect (one action "
+            "every 4 ms, so the production order is known) before the listener call, after a delay of 0/10/60/300 ms the "
+            "listener starts (signals flowing), then more actions; the network events seen by the callback must equal the "
+            "peers' action sequence exactly. non-trivial = at least 3 events cached before the listener call (tag cached3); "
+            "distinct = by scenario parameters")
+    trusted_base = NODE_TB
+    assumptions = NODE_ASSUME + ["production order = the peers' action order because actions are 4 ms apart (assumed of the kernel/poll)"]
+
+    def nontrivial(self, case, tags):
+        return "cached3" in tags
+
+    def tie(self, stats, tier, seed):
+        cmp = getattr(self, "compare", True)
+        core.tie_run(stats, "node", ["gen-early", seed, 12 if tier == "thorough" else 4], self.nontrivial, cmp)
+
+    def search(self, tier, seed):
+        st = core.Stats()
+        core.tie_run(st, "node", ["gen-early", seed + 1, 8], self.nontrivial, False)
+        return st
 
 
 CONC_TB = [KERNEL, TIE, "model of events.rs written by hand (MioModel/EventQueueConc.lean): sender calls are single atomic enqueues, the receiver is split at every shared access",
@@ -439,4 +529,4 @@ class C14(Prop):
         core.tie_run(stats, "net", ["gen", seed + 80, 200 if tier == "thorough" else 24], lambda c, t: "removed" in t or "disconnected" in t, cmp)
 
 
-PROPS = {p.id: p() for p in [C01, C02, C03, C04, C06, C07, C08, C10, C11, C13, C14, C16, C17, C18, C19]}
+PROPS = {p.id: p() for p in [C01, C02, C03, C04, C05, C06, C07, C08, C09, C10, C11, C13, C14, C15, C16, C17, C18, C19]}
